@@ -1151,19 +1151,22 @@ def c03(ctx):
     ctx.run_vh(["c03", "wide", wtrace, wres, 1500 if thorough else 150], timeout=3400)
     ctx.absorb(wres)
     wrows = read_ndjson(wtrace)
-    t = ctx.tlc("ArithTrace", "ArithTrace.cfg", mode="trace", files=[wtrace], name="c03-wide", timeout=3400, xss="64m")
-    if t["status"] == "invariant":
-        import re
-        m = re.findall(r"bad = (\d+)", t["out"])
-        ln = int(m[-1]) if m else 0
-        ev = wrows[ln - 1] if 0 < ln <= len(wrows) else {}
-        ctx.violation("wide:%s:%s" % (ev.get("op"), ev.get("wx")),
-                      "`%s` on %s-bit operands: the compiled program's result violates the exact relation (trace line %d: x=%s y=%s z=%s r=%s, "
-                      "base-4096 limbs)" % (ev.get("op"), ev.get("wx"), ln, ev.get("x"), ev.get("y"), ev.get("z"), ev.get("r")), ev)
-    elif t["status"] != "ok":
+    # every event is judged (no invariant in this configuration: the trace contains the listed known finding)
+    t = ctx.tlc("ArithTrace", "ArithTrace.cfg", mode="trace", files=[wtrace], name="c03-wide", timeout=3400, xss="64m",
+                cfg_text="SPECIFICATION Spec\nPOSTCONDITION Accepted\nCHECK_DEADLOCK FALSE\n")
+    if t["status"] != "ok":
         raise Broken("ArithTrace (C03 wide) failed: %s\n%s" % (t["status"], t["out"][-3000:]))
-    else:
-        ctx.cov["traces_validated_against_impl"] += len(wrows)
+    badlines = sorted(set(int(x) for x in re.findall(r'<<"VHBAD", (\d+)>>', t["out"])))
+    for ln in badlines:
+        ev = wrows[ln - 1] if 0 < ln <= len(wrows) else {}
+        if ev.get("target") == "mpcl-literal":
+            key = "wide-literal:%s:%s:%s" % (ev.get("lit"), ev.get("op"), ev.get("wx"))
+        else:
+            key = "wide:%s:%s" % (ev.get("op"), ev.get("wx"))
+        ctx.violation(key, "`%s` on %s-bit operands%s: the compiled program's result violates the exact relation (trace line %d: x=%s y=%s z=%s r=%s, "
+                      "base-4096 limbs)" % (ev.get("op"), ev.get("wx"), " (right operand a literal, class %s)" % ev.get("lit") if ev.get("lit") else "",
+                                            ln, ev.get("x"), ev.get("y"), ev.get("z"), ev.get("r")), ev)
+    ctx.cov["traces_validated_against_impl"] += len(wrows) - len(badlines)
     ctx.cov["wide_events"] = len(wrows)
     ctx.cov["rule"] = ("one evaluation = one generated program (rendered to MPCL, compiled, evaluated on up to 49 boundary input pairs against the "
                        "interpreter) or one shipped test program with all its @Test vectors; non-trivial = at least three statements; class "
